@@ -487,6 +487,19 @@ def fam_bound(tier, rng):
             if i is not None:
                 ops.append("visit tx n " + hx(t[:i] + f + t[i + len(good):]))
                 ops.append("visit block n " + hx(header(pat) + b"\x01" + t[:i] + f + t[i + len(good):]))
+    # a Break at the very first callback must win over any malformation located after it (and the callbacks before a
+    # malformation must still be delivered): blocks whose transaction count / first transaction is missing or bad
+    hb = header(pat)
+    tiny = bytes([1, 0, 0, 0, 0, 1, 0, 0, 0, 0, 0, 0])
+    for tail in (b"", b"\xfd", b"\xfd\x01", b"\xfd\x01\x00", b"\xfe\x01\x00\x00\x00", b"\x01", b"\x02" + tiny, b"\x01\x01\x00\x00\x00\x00\x02",
+                 b"\x01" + tiny[:7], b"\xff" * 9, b"\x03" + tiny * 2):
+        for pol in ("n", "b0", "b1", "b2"):
+            ops.append(f"visit block {pol} " + hx(hb + tail))
+    # the same for a transaction: Break at the first input / output / witness with garbage after it
+    t = Tx(2, [(pat.take(32), 1, b"\x51", 0xFFFFFFFE), (pat.take(32), 2, b"", 7)], [(9, b"\x51\x52"), (10, b"")], [[b"\x01"], []], 5, True).enc()
+    for cutpos in range(len(t) - 40, len(t), 3):
+        for pol in ("b0", "b1", "b2", "b3", "b4", "b5", "b6"):
+            ops.append(f"visit tx {pol} " + hx(t[:cutpos] + b"\xfd\x01\x00"))
     # outpoints: null / coinbase-like indices with zero and non-zero ids; ordering pairs that differ only in the index
     for txid in (bytes(32), bytes(range(1, 33)), bytes([0xFF] * 32)):
         for vout in (0, 1, 255, 256, 257, 65535, 65536, 0x7FFFFFFF, 0xFFFFFFFE, 0xFFFFFFFF):
